@@ -107,13 +107,13 @@ def liveL (w : World) (l : Nat) : Option (LHE × Store) :=
   | none => none
   | some e => match w.liveH e.ch with
     | none => none
-    | some (_, s) => some (e, s)
+    | some _ => (w.liveC e.cif).map (fun s => (e, s))
 def liveI (w : World) (i : Nat) : Option (ITE × Store) :=
   match w.its.getD i none with
   | none => none
   | some e => match w.liveL e.lh with
     | none => none
-    | some (_, s) => some (e, s)
+    | some _ => (w.liveC e.cif).map (fun s => (e, s))
 
 def setCif (w : World) (c : Nat) (s : Store) : World := { w with cifs := w.cifs.set c (some s) }
 def itOnLh (w : World) (l : Nat) : Bool := w.its.any (fun e => match e with | some e => e.lh == l | none => false)
